@@ -6,11 +6,15 @@
     Lean's termination checker; loops are bounded by the counts the C loops use);
   * no ghost check fails (`NoUB`): no out-of-range shift, no overflowing size computation, no
     buffer-filling loop writing past / short of its allocation;
-  * only documented status codes.
+  * only documented status codes;
+  * `returned_arrays_decode_no_ub`: `sbdf_va_get_values` on every value array (column values and
+    properties) of everything a whole-file read of ARBITRARY bytes returned, with any column
+    subset, succeeds or returns a status (postconditions of the readers, Lemmas/Post.lean).
   Heap discipline of the C error paths (double free, use after free, leaks, output arguments)
   is NOT in the model; it is observed under ASan + allocator accounting by the correspondence.
 -/
 import Sbdf.Lemmas.NoUB
+import Sbdf.Lemmas.Post
 import Sbdf.Gen.Tables
 namespace Sbdf.C05
 
@@ -163,6 +167,100 @@ theorem read_then_decode_no_ub (c : Cfg) (d : Array UInt8) (pos : Nat) (va : VA)
   decode_no_ub c va (readVA_sane c d pos va p h) w
 
 /-! ### only documented statuses -/
+
+/-! ### ... for everything a whole-file read returns, with any column subset -/
+
+theorem post_readVA_sane (c : Cfg) : Post (readVA c) Sane :=
+  fun d pos va p h => readVA_sane c d pos va p h
+
+/-- every value array of a column slice the reader returns: the column values and every property -/
+def CSSane (x : CS) : Prop := Sane x.values ∧ ∀ p ∈ x.props, Sane p.2
+
+theorem post_readCS_sane (c : Cfg) : Post (readCS c) CSSane := by
+  unfold readCS readProp
+  simp only [P.bind_def]
+  refine Post.bind (Q := fun _ => True) Post.trivial (fun _ _ => ?_)
+  refine Post.bind (post_readVA_sane c) (fun values hv => ?_)
+  refine Post.bind (Q := fun _ => True) Post.trivial (fun v _ => ?_)
+  refine Post.ite (fun _ => ?_) (fun _ => Post.pure ⟨hv, by simp⟩)
+  refine Post.ite (fun _ => Post.fail) (fun _ => ?_)
+  refine Post.bind (Q := fun _ => True) Post.trivial (fun _ _ => ?_)
+  refine Post.bind (Q := fun _ => True) Post.trivial (fun _ _ => ?_)
+  refine Post.bind (Post.readMany (Q := fun (p : Bytes × VA) => Sane p.2)
+    (Post.bind (Q := fun _ => True) Post.trivial (fun name _ =>
+      Post.bind (post_readVA_sane c) (fun va hva => Post.pure hva))) v.toNat) (fun props hp => Post.pure ?_)
+  exact ⟨hv, hp.2⟩
+
+theorem post_readCols_sane (c : Cfg) (n : Nat) (sub : Option (List Bool)) (i : Nat) :
+    Post (readCols c n sub i) (fun l => ∀ x, some x ∈ l → CSSane x) := by
+  induction n generalizing i with
+  | zero => exact Post.pure (by simp)
+  | succ n ih =>
+    simp only [readCols, P.bind_def]
+    refine Post.bind (Q := fun (o : Option CS) => ∀ x, o = some x → CSSane x) ?_ (fun col hcol => ?_)
+    · refine Post.ite (fun _ => ?_) (fun _ => ?_)
+      · exact Post.bind (post_readCS_sane c) (fun cs hcs => Post.pure (by
+          intro x hx; simp only [Option.some.injEq] at hx; subst hx; exact hcs))
+      · exact Post.bind (Q := fun _ => True) Post.trivial (fun _ _ => Post.pure (by intro x hx; cases hx))
+    · refine Post.bind (ih (i + 1)) (fun rest hrest => Post.pure ?_)
+      intro x hx
+      simp only [List.mem_cons] at hx
+      rcases hx with hx | hx
+      · exact hcol x hx.symm
+      · exact hrest x hx
+
+theorem post_readTS_sane (c : Cfg) (n : Nat) (sub : Option (List Bool)) :
+    Post (readTS c n sub) (fun r => ∀ ts, r = some ts → ∀ x, some x ∈ ts.cols → CSSane x) := by
+  unfold readTS
+  simp only [P.bind_def]
+  refine Post.bind (Q := fun _ => True) Post.trivial (fun v _ => ?_)
+  refine Post.ite (fun _ => Post.pure (by intro ts h; cases h)) (fun _ => ?_)
+  refine Post.ite (fun _ => Post.fail) (fun _ => ?_)
+  refine Post.bind (Q := fun _ => True) Post.trivial (fun cc _ => ?_)
+  refine Post.ite (fun _ => Post.fail) (fun _ => ?_)
+  refine Post.ite (fun _ => Post.fail) (fun _ => ?_)
+  refine Post.bind (Q := fun _ => True) Post.trivial (fun _ _ => ?_)
+  refine Post.bind (post_readCols_sane c n sub 0) (fun cols hcols => Post.pure ?_)
+  intro ts hts
+  simp only [Option.some.injEq] at hts
+  subst hts
+  exact hcols
+
+theorem readSlices_mem (c : Cfg) (n : Nat) (sub : Option (List Bool)) (d : Array UInt8) :
+    ∀ (fuel pos : Nat) (ts : TS), ts ∈ (readSlices c n sub d fuel pos).1 →
+      ∃ p p', readTS c n sub d p = .ok (some ts, p') := by
+  intro fuel
+  induction fuel with
+  | zero => intro pos ts h; simp [readSlices] at h
+  | succ f ih =>
+    intro pos ts h
+    simp only [readSlices] at h
+    split at h
+    · simp at h
+    · simp at h
+    · rename_i t pos' hr
+      simp only [List.mem_cons] at h
+      rcases h with rfl | h
+      · exact ⟨pos, pos', hr⟩
+      · exact ih pos' ts h
+
+/-- C05, accessors on whatever was returned: for EVERY byte string presented as a file, every
+    column subset and every call bound, `sbdf_va_get_values` on the values or on any property of
+    any column slice of any slice the reading loop returned never reads past a packed buffer and
+    never fills its output wrongly — it succeeds or returns a status. -/
+theorem returned_arrays_decode_no_ub (c : Cfg) (sub : Option (List Bool)) (fuel : Nat) (d : Array UInt8)
+    (ts : TS) (hts : ts ∈ (readFileF c sub fuel d).slices) (x : CS) (hx : some x ∈ ts.cols) (w : String) :
+    getValues c x.values ≠ .error (.ub w) ∧ ∀ p ∈ x.props, getValues c p.2 ≠ .error (.ub w) := by
+  unfold readFileF at hts
+  split at hts
+  · simp at hts
+  · split at hts
+    · simp at hts
+    · rename_i tm pos' _
+      simp only at hts
+      obtain ⟨p, p', hr⟩ := readSlices_mem c _ sub d fuel pos' ts hts
+      have hs := post_readTS_sane c _ sub d p (some ts) p' hr ts rfl x hx
+      exact ⟨decode_no_ub c x.values hs.1 w, fun q hq => decode_no_ub c q.2 (hs.2 q hq) w⟩
 
 theorem status_all_complete (s : Status) : s ∈ Status.all := by cases s <;> decide
 
